@@ -553,7 +553,13 @@ def build_secp(job):
         pairs = [(g, g), (g, o), (o, g), (o, o), (pool[3], pool[6]), (pool[6], pool[3])] + \
             [(rng.choice(pool), rng.choice(pool)) for _ in range(10 if quick else 60)]
         for (a, b) in pairs:
-            pool.append(prod("add", lambda: s.add(regs[a - 1], regs[b - 1]), a=a, b=b))
+            ab = prod("add", lambda: s.add(regs[a - 1], regs[b - 1]), a=a, b=b)
+            pool.append(ab)
+            prod("add", lambda: s.add(regs[b - 1], regs[a - 1]), a=b, b=a)                 # the same sum along other paths
+            c = rng.choice(pool)
+            prod("add", lambda: s.add(regs[ab - 1], regs[c - 1]), a=ab, b=c)
+            bc = prod("add", lambda: s.add(regs[b - 1], regs[c - 1]), a=b, b=c)
+            prod("add", lambda: s.add(regs[a - 1], regs[bc - 1]), a=a, b=bc)
         for _ in range(4 if quick else 20):
             a = rng.choice(pool)
             n = rng.choice([rng.getrandbits(256), -rng.getrandbits(256), N - 1, -2, rng.getrandbits(512)])
